@@ -21,7 +21,7 @@ REQUIRED_ELSEWHERE = {
     "Coap.C05": ["reader_no_oob", "oversize_closes"],
     "Coap.C16": ["no_overread"],
     "Coap.C20": ["match_no_overread", "wellknown_no_overread"],
-    "Coap.C09": ["block_opt_bounds", "rblock_represents"],
+    "Coap.C09": ["block_opt_bounds", "rblock_represents", "block2_hostile_no_unwritten_bytes", "block1_hostile_no_unwritten_bytes"],
 }
 NAMESPACE = "Coap.C02"
 REQUIRED_THEOREMS = ["parse_never_oob", "walk_never_oob", "rejected_never_dispatched", "dispatched_is_reference_decoding",
